@@ -11,15 +11,15 @@ TRUST = ("go/ssa construction; this interpreter's reading of the SSA instruction
 CHECKS = {
  "C12": dict(
    text="Bounded symbolic model checking of the real uri.NormalizeEscapedPath (go/ssa of /repo's working tree): for EVERY string of "
-        "length 0..6 (quick) / 0..9 (thorough), all 256 byte values per position, the solver shows no input panics, ok is true exactly "
+        "length 0..7 (quick) / 0..9 (thorough), all 256 byte values per position, the solver shows no input panics, ok is true exactly "
         "when every % starts a valid escape, the result decodes to the same octets, kept escapes are upper-case and necessary, literal/"
         "escaped slashes are not exchanged, normalising is idempotent, only escapes of unreserved bytes are removed, and invalid input yields \"\". Holds within the length bound only.",
    design="4 C12", technique="symbolic execution of go/ssa + SMT (bit-vectors), all inputs within a length bound"),
  "C16": dict(
    text="Bounded symbolic model checking of the real jsonpointer.Resolve/find/findIdx/findKey/unescape/splitFunc (plus net/url.PathUnescape, "
         "strconv.ParseUint, strings.genericReplacer from SSA) against an RFC 6901 evaluator written in the harness: node identity must agree "
-        "and ill-formed or dangling pointers must error. Pointer bytes are fully symbolic (all 256 values) up to length 3 (quick) / 4 (thorough), "
-        "and additionally every valid base pointer of 6 document skeletons, in both spellings, carries a window of 1..2 (1..3) symbolic bytes at every "
+        "and ill-formed or dangling pointers must error. Pointer bytes are fully symbolic (all 256 values) up to length 4 (quick) / 5 (thorough), "
+        "and additionally every valid base pointer of 6 document skeletons, in both spellings, carries a window of 1..3 symbolic bytes at every "
         "position; index tokens of 3..21 arbitrary digits (the wrap-around region at 2^64); member names are symbolic. Holds within those bounds only; the tilde-leniency defect is carried as a known finding.",
    design="4 C16", technique="symbolic execution of go/ssa + SMT, differential against an RFC 6901 reference evaluator"),
  "C06": dict(
@@ -65,7 +65,7 @@ CHECKS = {
  "C20": dict(
    text="Bounded symbolic model checking of cmd/ogen's real generate() and cleanDir(): under the engine the environment (ogen.Parse, gen.NewGenerator, WriteSource, os.ReadDir/"
         "MkdirAll/Remove) is replaced by recording stubs with nondeterministic outcomes - failing stage, clean flag, target listing/absent/unreadable and fully symbolic file names "
-        "(7-12 bytes, plus near-miss frames) with symbolic IsDir; asserts a pre-write failure returns an error and performs no remove/mkdir/write, an unreadable target aborts before any "
+        "(3-14 bytes, plus near-miss frames of 11-20 bytes; thorough 3-20) with symbolic IsDir; asserts a pre-write failure returns an error and performs no remove/mkdir/write, an unreadable target aborts before any "
         "mutation, and cleaning removes exactly the listed regular files matching oas*/openapi* and *_gen.go/*_gen_test.go. The same harness stages a real scratch directory natively, so "
         "every model replays against the real build. run()'s flag/config stages are outside.",
    design="4 C20", technique="symbolic execution of go/ssa with nondeterministic environment stubs + SMT; native replay on a real scratch directory"),
